@@ -19,11 +19,67 @@ LEAN_MODULES = ["LenaModel.Props.C03"]
 LEAN_SOURCES = ["LenaModel/Model/C03.lean", "LenaModel/Lemmas/C03.lean", "LenaModel/Props/C03.lean"]
 DRIVER = "drivers/C03.lean"
 THEOREMS = [
+    "Lena.C03.loop_refines_spec",
+    "Lena.C03.run_eq_schedule",
+    "Lena.C03.run_outputs_eq_schedule",
+    "Lena.C03.copy_buf_irrelevant",
+    "Lena.C03.no_assert_fail",
+    "Lena.C03.blocks_flatten",
+    "Lena.C03.blocks_sizes",
+    "Lena.C03.blocks_none",
+    "Lena.C03.blocks_large",
+    "Lena.C03.mkBranches_nodup",
+    "Lena.C03.projection",
+    "Lena.C03.branchTrace_source",
+    "Lena.C03.source_first_block",
+    "Lena.C03.branchTrace_sequence",
+    "Lena.C03.branchTrace_fillCompute",
+    "Lena.C03.branchTrace_fillRequest",
+    "Lena.C03.stopfill_dropped_life",
+    "Lena.C03.stopfill_dropped",
+    "Lena.C03.empty_flow_once",
+    "Lena.C03.empty_flow_invocations",
+    "Lena.C03.projection_fillCompute",
+    "Lena.C03.bufsize_independent_fc",
+    "Lena.C03.projection_per_value",
+    "Lena.C03.bufsize_independent_per_value",
+    "Lena.C03.harness_per_value_streaming",
+    "Lena.C03.empty_split_id",
+    "Lena.C03.methods_available",
+    "Lena.C03.call_available",
+    "Lena.C03.common_type_source",
+    "Lena.C03.common_type_fill_compute",
+    "Lena.C03.common_type_fill_request",
+    "Lena.C03.zip_yield_ith",
+    "Lena.C03.zip_ith",
+    "Lena.C03.colAt_eq_none_iff",
+    "Lena.C03.colAt_eq_some",
+    "Lena.C03.classify_source_iff",
+    "Lena.C03.classify_explicit",
+    "Lena.C03.classify_el",
+    "Lena.C03.classify_tuple_fc",
+    "Lena.C03.splitInit_not_list",
+    "Lena.C03.splitInit_valid",
+    "Lena.C03.splitInit_bad_bufsize",
+    "Lena.C03.zipInit_ok_iff",
+    "Lena.C03.contribution_causal",
+    "Lena.C03.splitFill_stop",
+    "Lena.C03.splitFillAll_iff",
+    "Lena.C03.nested_fill_compute",
+    "Lena.C03.nested_fill_request",
 ]
 CASE_TIMEOUT = 10
 
 KIND = {"src": "source", "fc": "fill_compute", "fr": "fill_request", "sq": "sequence", "sum": "fill_compute"}
 PER_VALUE_SQ = ("map", "even", "dup", "running", "lam")
+
+
+def _kind(sp):
+    """the type the property assigns to a branch of a case"""
+    if sp["k"] == "nest":
+        ks = set(KIND[i["k"]] for i in sp["inner"])
+        return "fill_compute" if ks == {"fill_compute"} else "fill_request"
+    return KIND[sp["k"]]
 
 
 # ----------------------------------------------------------------------------------------
@@ -142,7 +198,35 @@ def _mk_el(sp, tag, log):
         return SQ(tag, sp["v"], log)
     if k == "sum":
         return _mk_sum(tag, log)
+    if k == "nest":
+        return _mk_nest(sp, tag, log)
     raise ValueError(k)
+
+
+def _mk_nest(sp, tag, log):
+    """a real common-type Split used as an element; its branches carry the tags 100*(tag+1)+j and log under
+    their own tags; the calls the enclosing Split makes on the nested Split are logged under `tag`"""
+    import lena.core as lc
+    base = 100 * (tag + 1)
+    inner = [_wrap(isp, _mk_el(isp, base + j, log)) for j, isp in enumerate(sp["inner"])]
+    ns = lc.Split(inner, bufsize=sp.get("bufsize", 1000))
+    orig_fill = ns.fill
+
+    def fill(x):
+        try:
+            orig_fill(x)
+        except lc.LenaStopFill:
+            log.append((tag, ["fill", x, True]))
+            raise
+        log.append((tag, ["fill", x, False]))
+    ns.fill = fill
+    for name in ("compute", "request"):
+        if hasattr(ns, name):
+            def gen(orig=getattr(ns, name), name=name):
+                log.append((tag, [name]))
+                return orig()
+            setattr(ns, name, gen)
+    return ns
 
 
 def _ident(x):
@@ -156,7 +240,7 @@ def _wrap(sp, el):
     k = sp["k"]
     if k == "src":
         return lc.Source(el)
-    if form == "el":
+    if form == "el" or k == "nest":
         return el
     if form == "tuple":
         return (el,)
@@ -207,8 +291,8 @@ def ref_run(specs, bufsize, flow):
         return list(flow), []
     log = []
     els = [_mk_el(sp, i, log) for i, sp in enumerate(specs)]
-    kinds = [KIND[sp["k"]] for sp in specs]
-    lam = [sp["k"] == "sq" and sp["v"] == "lam" for sp in specs]
+    kinds = [_kind(sp) for sp in specs]
+    lam = [sp["k"] == "sq" and sp.get("v") == "lam" for sp in specs]
     active = [True] * len(specs)
     out = []
     blocks = _blocks(flow, bufsize)
@@ -319,10 +403,25 @@ def _rand_flow(rng, maxn):
     return [rng.randint(-3, 9) for _ in range(n)]
 
 
+def _rand_nest(rng, n):
+    kinds = ("fc", "sum") if rng.random() < 0.5 else ("fr",)
+    stops = rng.random() < 0.4
+    inner = []
+    for _ in range(rng.randint(1, 3)):
+        sp = _rand_spec(rng, n, kinds)
+        if not stops and "stop" in sp:
+            sp["stop"] = None
+        inner.append(sp)
+    return {"k": "nest", "inner": inner, "bufsize": rng.choice([1, 2, 1000, None])}
+
+
 def _rand_run(rng, maxbr, maxn):
     flow = _rand_flow(rng, maxn)
     l = rng.randint(0, maxbr)
-    return {"op": "run", "brs": [_rand_spec(rng, len(flow)) for _ in range(l)], "flow": flow,
+    brs = [_rand_spec(rng, len(flow)) for _ in range(l)]
+    if brs and rng.random() < 0.25:
+        brs[rng.randrange(len(brs))] = _rand_nest(rng, len(flow))
+    return {"op": "run", "brs": brs, "flow": flow,
             "bufsizes": _bufsizes(len(flow)), "copy_buf": rng.random() < 0.5}
 
 
@@ -431,14 +530,14 @@ def _init_cases(rng, tier):
 def gen_cases(ctx):
     rng = ctx.rng
     if ctx.tier == "quick":
-        cases = _exhaustive_runs({0: 3, 1: 3, 2: 2, 3: 2, 4: 2})
+        cases = _exhaustive_runs({0: 3, 1: 3, 2: 3, 3: 2, 4: 2})
         n_run, n_meth, n_zip = 900, 500, 400
         maxbr, maxn = 4, 8
     else:
         # the property's quantifier for N = 4: every branch list of length 0..4 over the four kinds, every
         # bufsize, both copy_buf, every stop index (lists of length 4 on flows of length 0..3; 0..3 on length 4)
         cases = _exhaustive_runs({0: 4, 1: 4, 2: 4, 3: 4, 4: 3})
-        n_run, n_meth, n_zip = 60000, 15000, 10000
+        n_run, n_meth, n_zip = 30000, 8000, 6000
         maxbr, maxn = 5, 8
     for _ in range(n_run):
         cases.append(_rand_run(rng, maxbr, maxn))
@@ -640,6 +739,8 @@ def run_impl(case):
 # the model
 
 def _mspec(sp):
+    if sp["k"] == "nest":
+        return {"k": "nest", "inner": [_mspec(i) for i in sp["inner"]]}
     return {k: v for k, v in sp.items() if k != "form"}
 
 
@@ -658,10 +759,15 @@ def model_requests(case):
 
 
 def _is_lam(sp):
-    return sp["k"] == "sq" and sp["v"] == "lam"
+    return sp["k"] == "sq" and sp.get("v") == "lam"
 
 
-def _cmp_run(specs, r, m, what):
+def _cmp_run(specs, r, m, what, flow=None, bufsize=None):
+    # the specification side of the theorems (`blocks`, `Split.schedule`) against Python / the real code
+    if flow is not None and m.get("blocks") != _blocks(flow, bufsize):
+        return f"{what}: Lean `blocks` gives {m.get('blocks')} but the flow is cut into {_blocks(flow, bufsize)}"
+    if "out" in r and m.get("spec_out") != r["out"]:
+        return f"{what}: impl yields {r['out']} vs Lean `Split.schedule` {m.get('spec_out')}"
     if "e" in r:
         return f"{what}: impl raised {r}, model gives {jdump(m)[:300]}"
     if m.get("assert"):
@@ -683,7 +789,7 @@ def compare(case, res, replies):
         return f"model driver error: {m['err']}"
     if op == "run":
         for bs, r, mr in zip(case["bufsizes"], res["runs"], m["runs"]):
-            msg = _cmp_run(case["brs"], r, mr, f"bufsize={bs}")
+            msg = _cmp_run(case["brs"], r, mr, f"bufsize={bs}", case["flow"], bs)
             if msg:
                 return msg
         return None
@@ -736,7 +842,13 @@ def _oracle_run(case, res):
         what = f"Split({[_show(s) for s in specs]}, bufsize={bs}, copy_buf={case['copy_buf']}).run({flow})"
         if "e" in r:
             return f"[raised] {what} raised {r['e']} ({r['phase']})"
-        exp_out, exp_inv = ref_run(specs, bs, flow)
+        try:
+            exp_out, exp_inv = ref_run(specs, bs, flow)
+        except Exception as e:
+            if any(sp["k"] == "nest" for sp in specs):
+                # the reference drives the real nested Split as an element
+                return f"[nested-raised] {what}: the nested Split, used as an element by the reference schedule, raised {exc_name(e)}: {e}"
+            raise
         exp_out, exp_inv = canon(exp_out), canon(exp_inv)
         if r["out"] != exp_out:
             return f"[schedule] {what} yields {r['out']} but the documented schedule gives {exp_out}"
@@ -756,12 +868,28 @@ def _oracle_run(case, res):
             for j, ev in enumerate(inv):
                 if ev[0] == "fill" and ev[2]:
                     rest = inv[j + 1:]
-                    fin = "compute" if KIND[sp["k"]] == "fill_compute" else "request"
+                    fin = "compute" if _kind(sp) == "fill_compute" else "request"
                     if rest != [[fin]]:
                         return (f"[stopfill-dropped] {what}: branch {i} signalled LenaStopFill on {ev[1]} and must then be finalised once "
                                 f"([{fin}]) and dropped, but afterwards it received {rest}")
+        # a common-type Split used as a branch yields there what it yields when run alone (same bufsize), as long
+        # as none of its branches signals LenaStopFill: "offers that type's methods with the same meaning"
         for i, sp in enumerate(specs):
-            if sp["k"] == "sum":
+            if sp["k"] != "nest" or any(isp["k"] == "sum" for isp in sp["inner"]):
+                continue
+            if any(ev[0] == "fill" and ev[2] for ev in r["inv"][i]):
+                continue
+            base = 100 * (i + 1)
+            mine = [v for v in r["out"] if _tag_of(v) is not None and base <= _tag_of(v) < base + 100]
+            try:
+                alone = _run_alone(sp, i, flow, bs)
+            except Exception as e:
+                return f"[nested-raised] {what}: the Split nested as branch {i}, run alone with bufsize={bs}, raised {exc_name(e)}: {e}"
+            if mine != alone:
+                return (f"[nested-same-meaning] {what}: the nested Split (branch {i}) yields {mine} there, but run alone "
+                        f"with bufsize={bs} on the same flow it yields {alone}")
+        for i, sp in enumerate(specs):
+            if sp["k"] in ("sum", "nest"):
                 continue
             if sp["k"] == "fc" or (sp["k"] == "sq" and sp["v"] in PER_VALUE_SQ):
                 mine = [v for v in r["out"] if _tag_of(v) == i]
@@ -774,6 +902,15 @@ def _oracle_run(case, res):
             if r.get("out") != list(flow):
                 return f"[empty-split-identity] an empty Split must be the identity: bufsize={bs} gives {r.get('out')} for {flow}"
     return None
+
+
+def _run_alone(sp, tag, flow, bufsize):
+    """the real Split of the inner branches of a nested-Split spec, run alone on the flow"""
+    import lena.core as lc
+    log = []
+    base = 100 * (tag + 1)
+    inner = [_wrap(isp, _mk_el(isp, base + j, log)) for j, isp in enumerate(sp["inner"])]
+    return canon(list(lc.Split(inner, bufsize=bufsize).run(iter(flow))))
 
 
 def _ref_fill_all(els, flow):
@@ -856,6 +993,8 @@ def _doc_kind(o):
         return {"source": "source", "fcseq": "fill_compute", "frseq": "fill_request", "seq": "sequence"}[t]
     if t == "el":
         c = o["caps"]
+        if "f" in c and "c" in c and "q" in c:
+            return None  # both compute and request: which one wins is the code's choice (model), not the property's
         if "f" in c and "c" in c:
             return "fill_compute"
         if "f" in c and "q" in c:
@@ -927,6 +1066,8 @@ def _show(sp):
         return f"fr(stop={sp['stop']}{',late' if sp['late'] else ''})/{f}"
     if k == "sq":
         return f"sq({sp['v']})/{f}"
+    if k == "nest":
+        return "Split[" + ", ".join(_show(i) for i in sp["inner"]) + "]"
     return f"Sum/{f}"
 
 
@@ -950,6 +1091,8 @@ def classify(case, res):
         labels.append("run:stopfill" if stops else "run:nostop")
         if not case["flow"]:
             labels.append("run:empty-flow")
+        if any(sp["k"] == "nest" for sp in case["brs"]):
+            labels.append("run:nested-split")
         forms = set(sp.get("form", "el") for sp in case["brs"])
         labels += [f"form:{f}" for f in sorted(forms)]
         return labels
@@ -998,6 +1141,18 @@ def shrink(case):
             yield dict(case, blocks=bl[:i] + bl[i + 1:])
             if len(bl[i]) > 1:
                 yield dict(case, blocks=bl[:i] + [bl[i][1:]] + bl[i + 1:])
+    if op == "run":
+        brs = case["brs"]
+        for i, sp in enumerate(brs):
+            if sp["k"] == "nest":
+                inner = sp["inner"]
+                for j in range(len(inner)):
+                    if len(inner) > 1:
+                        yield dict(case, brs=brs[:i] + [dict(sp, inner=inner[:j] + inner[j + 1:])] + brs[i + 1:])
+                    for k, v in (("form", "el"), ("late", False), ("items", False), ("stop", None)):
+                        if k in inner[j] and inner[j][k] != v:
+                            yield dict(case, brs=brs[:i] + [dict(sp, inner=inner[:j] + [dict(inner[j], **{k: v})]
+                                                                + inner[j + 1:])] + brs[i + 1:])
     if op in ("run", "methods", "zip"):
         brs = case["brs"]
         for i, sp in enumerate(brs):
@@ -1038,13 +1193,27 @@ ASSUMPTIONS = [
 ]
 RULE = ("op=run: one case = (branch list, flow, copy_buf) run under EVERY bufsize in {1..len(flow)+1, 1000, None}; "
         "exhaustive over the four branch kinds with tagged outputs and LenaStopFill at every fill index "
-        "(quick: lists 0..3 for flows 0..1, 0..2 for flows 2..4; thorough: lists 0..4 for flows 0..3, 0..3 for flows "
+        "(quick: lists 0..3 for flows 0..2, 0..2 for flows 3..4; thorough: lists 0..4 for flows 0..3, 0..3 for flows "
         "of length 4), plus seeded random cases (lists 0..4/5, flows 0..8 of random integers, 7 kinds of run "
         "elements, lena.math.Sum, late/multi-result variants, every argument form accepted by _get_seq_with_type); "
         "op=methods / zip: random common-type and mixed branch lists; op=init: every capability subset as a single "
         "argument, tuples over 16 representative capability sets, pairs, random lists. "
         "Non-trivial: >= 2 branches and a non-empty output (run), a non-empty result or an exception (others).")
-LEVEL_TEXT = ""
-LEVEL_NOTE = ""
+LEVEL_TEXT = ("Lean 4 theorems about a transcribed model of Split.run (block loop, index loop with in-place deletion, "
+              "final pass), Split's common-type methods, _get_seq_with_type and Zip._yield, for ALL branch lists (any "
+              "length, any mix of the four kinds, arbitrary stateful branch methods), all flows, every bufsize in N+ or "
+              "None and both copy_buf: the trace of Split.run equals the documented schedule (block by block, branch by "
+              "branch, each branch's contribution a function of that branch and the blocks alone), with per-kind "
+              "projections, LenaStopFill finalise-once-and-drop, exactly-once invocation on an empty flow, bufsize "
+              "independence for fill/compute and streaming branches, identity of the empty Split, common-type "
+              "fill/compute, fill/request and __call__, Zip's i-th tuples. The model is tied to /repo by a "
+              "correspondence check on event traces (outputs + per-branch invocation logs) that enumerates the four "
+              "kinds x every bufsize x both copy_buf x every LenaStopFill index for branch lists 0..4 and flows 0..4 "
+              "(thorough; lists 0..3 on flows 0..2 in quick) plus seeded random richer cases, and by a reference-"
+              "schedule oracle run on fresh branch objects.")
+LEVEL_NOTE = ("Trusted: Lean kernel (+ propext, Classical.choice, Quot.sound), the hand transcription validated by the "
+              "correspondence run, the instrumented harness elements and their Lean counterparts, the JSON protocol. "
+              "Modelled, not verified: copy.deepcopy as value identity (aliasing: C04), generators consumed to the end "
+              "(laziness: C02), branch methods raising nothing but LenaStopFill, Zip on values without context.")
 TECHNIQUE = "Lean 4 proof over hand-written model + correspondence check (event traces) + reference-schedule oracle"
 DESIGN_REF = "DESIGN.md section 3, C03"
